@@ -1,4 +1,9 @@
-import Osmium.Lemmas.PipelineCompleteN
+/-
+Invariant Z: every fault is on its way to the consumer as an exception value
+(`faulted = true → InExc ∨ EvP`).  `fault_step`: the five steps that set `faulted` produce the
+witness; all other steps keep `faulted`, and `InExc`/`EvP` are monotone (PipelineShapeOutZ1.lean).
+-/
+import Osmium.Lemmas.PipelineShapeOutZ1
 
 set_option linter.unusedSimpArgs false
 set_option linter.unusedVariables false
@@ -8,8 +13,26 @@ open Osmium.Mon
 variable {α : Type} [DecidableEq α]
 namespace Complete
 
+set_option maxHeartbeats 1600000 in
+theorem fault_step (c : Cfg α) (s : State α) (e : Ev α) (s' : State α)
+    (hst : (machine c).Step s e s') : s'.faulted = true → s.faulted = true ∨ InExc s' ∨ EvP s' := by
+  pc_cases e with hst
+  all_goals try exact fun h => Or.inl h
+  all_goals try exact fun _ => Or.inr (Or.inl (Or.inl ⟨_, rfl, trivial⟩))
+  all_goals try exact fun _ => Or.inr (Or.inr (Or.inl ⟨_, rfl⟩))
+  · exact fun _ => Or.inr (Or.inr (Or.inr (Or.inr (Or.inl ⟨_, _, rfl, by simp [isExc]⟩))))
+  · rename_i h; intro hf; left; simpa [h] using hf
+
 theorem invZ (c : Cfg α) : ∀ s, (machine c).Reachable s → InvZ s := by
-  sorry
+  apply Machine.invariant
+  · exact ⟨by simp [machine, init]⟩
+  · intro s e s' hr ih hst
+    refine ⟨fun hf => ?_⟩
+    rcases fault_step c s e s' hst hf with h | h
+    · rcases ih.z h with h | h
+      · exact Or.inl (inExc_mono c s e s' hr hst h)
+      · exact Or.inr (evP_mono c s e s' hr hst h)
+    · exact h
 
 end Complete
 end Osmium.Pipeline
